@@ -210,6 +210,8 @@ class C14(Property):
         "Flatland.C14.Proofs.tokenize_print_names",
         "Flatland.C14.Proofs.tokenize_print",
         "Flatland.C14.Proofs.find_print_denotes",
+        "Flatland.C14.Proofs.eval_cancel_denotes",
+        "Flatland.C14.Proofs.find_print_cancel",
     ]
     generated_obligations = []
     trusted_base = [
@@ -371,6 +373,8 @@ class C14(Property):
             obs["printed"] = cm.enc(cm.print_path(ast))
             obs["denoted"] = _denote_obs(ast, start, label, case["single"], case["strict"])
             obs["canon"] = cm.canon_ast(ast)
+            if cm.ast_wf(ast):
+                obs["cancelled"] = _denote_obs(cm.cancel_ups(ast), start, label, case["single"], case["strict"])
         return obs
 
     # -------------------------------------------------------------- oracle (spec B on the real code)
